@@ -18,7 +18,7 @@ from vlib import core, srcgen
 
 PID = "C08"
 LEVEL = "exploration"
-TECHNIQUE = "round-trip + differential testing against the interpreter's node positions and re-parse (Hypothesis grammar, statement soup, stdlib corpus); atheris campaign in the thorough tier"
+TECHNIQUE = "round-trip + differential testing against the interpreter's node positions and re-parse (Hypothesis grammar, statement soup, stdlib corpus); coverage-guided stage (atheris driving the same strategy) in the thorough tier"
 RULE = (
     "texts from the G-SRC concrete-syntax grammar (every statement/expression form of the 3.12 grammar with hostile layout), "
     "stdlib statement soup and corpus files (every 4th file quick / all thorough); every AST node of every text is checked; "
@@ -31,6 +31,7 @@ ASSUMPTIONS = [
 ]
 BUDGET = {"quick": (4000, 240), "thorough": (100000, 2700)}
 # thorough tier: rope modules instrumented for the coverage-guided (atheris) stage, see vlib/fuzzworker.py
+FUZZ_SECONDS = 240  # per process, thorough tier only
 FUZZ_MODULES = ["rope.refactor.patchedast", "rope.base.codeanalyze", "rope.base.ast"]
 
 HAZARDS = {"comment_in_bracket", "backslash_cont", "multiline_bracket", "prefixed_string", "semicolon", "tabs", "implicit_concat", "multiline_string"}
